@@ -7,7 +7,7 @@ CONSTANTS
   NFiles = 0
   EditKinds = {}
   Linking = FALSE
-  StaleOps = FALSE
+  StaleOps = TRUE
 INIT TInit
 NEXT TNext
 CONSTRAINT Progress
